@@ -460,6 +460,12 @@ pub const SRC7: Src = Src(7);
 pub const CONV_K: Conv = Conv { val: String::new(), via: "const" };
 pub fn conv_call() -> Conv { Conv { val: "call".to_string(), via: "direct" } }
 pub fn str_call() -> &'static str { "called" }
+pub fn src_call() -> Src { Src(3) }
+#[derive(Debug, Clone, Copy, PartialEq, Default)]
+pub enum Color { #[default] Red, Green }
+impl From<Color> for Conv {
+    fn from(c: Color) -> Conv { Conv { val: format!("{c:?}"), via: "from_color" } }
+}
 
 // ---------------------------------------------------------------------------
 // trait-solver probes
